@@ -349,6 +349,20 @@ func (c *c17ctx) query() {
 	for i := 0; i < np; i++ {
 		q.Parameters = append(q.Parameters, proto.Parameter{Key: settingKey.Draw(rt, "pkey"), Value: protoStrWide.Draw(rt, "pval")})
 	}
+	// The lists have no length on the wire and no documented bound: long ones too (tried at the
+	// representative revisions only).
+	switch rapid.IntRange(0, 39).Draw(rt, "long-lists") {
+	case 0:
+		c17Heavy = true
+		for i, n := 0, rapid.SampledFrom([]int{255, 999, 1000, 1001, 1024, 4097}).Draw(rt, "many-params"); i < n; i++ {
+			q.Parameters = append(q.Parameters, proto.Parameter{Key: fmt.Sprintf("p%d", i), Value: fmt.Sprintf("'%d'", i*7)})
+		}
+	case 1:
+		c17Heavy = true
+		for i, n := 0, rapid.SampledFrom([]int{255, 1000, 9999, 10000, 10001, 16385}).Draw(rt, "many-settings"); i < n; i++ {
+			q.Settings = append(q.Settings, proto.Setting{Key: fmt.Sprintf("s%d", i), Value: fmt.Sprint(i), Important: i%3 == 0})
+		}
+	}
 	gates := []int{ref.RevSettingsAsStrings, ref.RevInterServerSecret, ref.RevOpenTelemetry, ref.RevDistributedDepth, ref.RevQueryStartTime,
 		ref.RevParallelReplicas, ref.RevParameters}
 	rq := ref.Query{ID: q.ID, Info: refClientInfo(q.Info), Settings: refSettings(q.Settings), Secret: q.Secret, Stage: uint64(q.Stage), Compression: uint64(q.Compression), Body: q.Body}
